@@ -28,6 +28,7 @@ RULE = ("typed Bool-rooted filters (depth 1..4 quick / 1..6 thorough) over every
         "one judged row and rejects at least one")
 RULE += (" " + 'Added lanes: machine numbers (Int64 extremes, non-dyadic fractions, integer groups under float arithmetic, comparison value produced by the source grouping); long in-lists (33..1500) under and/or/not; same-field comparison chains; repeated operands; exponent-notation and literal-like strings; fixed-point column; year 1/9999.')
 RULE += (" " + "Round-10 lanes: 1..8 stacked unary minus signs x 8 operand kinds x 8 operator positions; numeric-spelling twins (X conn X' with one number respelled 2 <-> 2.0); every bracketing of 3/4-operand add/mul chains x every int/float operand pattern; groups of groups with every ordered pair of 15 bracket/quote/comment strings in the first and last sub-group.")
+RULE += (" " + 'Rounds 13-14: NULLable column of every kind x eq / ne both orders, in, null tests, in-lists holding a null literal x 7 negation wrappers.')
 ASSUMPTIONS = ["reference evaluator vpmon/ref/odata_eval.py; UNSPEC rows (division by zero, "
                "inexact negative div, mod with negatives, out-of-range substring, concat "
                "with NULL, ASCII case-insensitive LIKE differences, non-ASCII case mapping) "
